@@ -5,9 +5,8 @@ package url
 import (
 	"fmt"
 	"hash/fnv"
+	"reflect"
 	"sort"
-
-	"github.com/bits-and-blooms/bitset"
 )
 
 // Verification hooks, compiled only with the "verif" build tag. They observe the
@@ -111,112 +110,130 @@ type verifHasher struct {
 	}
 }
 
-func (v verifHasher) str(s string)   { fmt.Fprintf(v.h, "%d:%s;", len(s), s) }
-func (v verifHasher) boolean(b bool) { fmt.Fprintf(v.h, "%t;", b) }
-func (v verifHasher) bits(name string, b *bitset.BitSet) {
-	if b == nil {
-		v.str(name + "=nil")
+func (v verifHasher) str(s string) { fmt.Fprintf(v.h, "%d:%s;", len(s), s) }
+
+// deep hashes a value structurally through reflection: every field (exported or not) of
+// structs, the targets of pointers, the elements of slices, arrays and maps (maps in key
+// order). Functions only contribute whether they are nil. Fields added later are covered
+// without touching this file.
+func (v verifHasher) deep(x reflect.Value, depth int) {
+	if depth > 12 {
+		v.str("<depth>")
 		return
 	}
+	if !x.IsValid() {
+		v.str("<invalid>")
+		return
+	}
+	switch x.Kind() {
+	case reflect.Bool:
+		fmt.Fprintf(v.h, "b%t;", x.Bool())
+	case reflect.Int, reflect.Int8, reflect.Int16, reflect.Int32, reflect.Int64:
+		fmt.Fprintf(v.h, "i%d;", x.Int())
+	case reflect.Uint, reflect.Uint8, reflect.Uint16, reflect.Uint32, reflect.Uint64, reflect.Uintptr:
+		fmt.Fprintf(v.h, "u%d;", x.Uint())
+	case reflect.Float32, reflect.Float64:
+		fmt.Fprintf(v.h, "f%g;", x.Float())
+	case reflect.String:
+		v.str(x.String())
+	case reflect.Ptr, reflect.Interface:
+		if x.IsNil() {
+			v.str("<nil>")
+			return
+		}
+		v.str("&")
+		v.deep(x.Elem(), depth+1)
+	case reflect.Struct:
+		fmt.Fprintf(v.h, "{%s:", x.Type().String())
+		for i := 0; i < x.NumField(); i++ {
+			v.str(x.Type().Field(i).Name)
+			v.deep(x.Field(i), depth+1)
+		}
+		v.str("}")
+	case reflect.Slice, reflect.Array:
+		if x.Kind() == reflect.Slice && x.IsNil() {
+			v.str("<nilslice>")
+			return
+		}
+		fmt.Fprintf(v.h, "[%d:", x.Len())
+		for i := 0; i < x.Len(); i++ {
+			v.deep(x.Index(i), depth+1)
+		}
+		v.str("]")
+	case reflect.Map:
+		if x.IsNil() {
+			v.str("<nilmap>")
+			return
+		}
+		keys := x.MapKeys()
+		sort.Slice(keys, func(i, j int) bool { return fmt.Sprint(keys[i]) < fmt.Sprint(keys[j]) })
+		fmt.Fprintf(v.h, "m%d:", len(keys))
+		for _, k := range keys {
+			v.deep(k, depth+1)
+			v.deep(x.MapIndex(k), depth+1)
+		}
+	case reflect.Func, reflect.Chan, reflect.UnsafePointer:
+		fmt.Fprintf(v.h, "fn%t;", x.IsNil())
+	default:
+		v.str("<" + x.Kind().String() + ">")
+	}
+}
+
+func (v verifHasher) named(name string, x interface{}) {
 	v.str(name)
-	for i, ok := b.NextSet(0); ok; i, ok = b.NextSet(i + 1) {
-		fmt.Fprintf(v.h, "%d,", i)
-	}
-	fmt.Fprintf(v.h, "|%d;", b.Len())
-}
-func (v verifHasher) set(name string, p *PercentEncodeSet) {
-	if p == nil {
-		v.str(name + "=nil")
-		return
-	}
-	fmt.Fprintf(v.h, "%d;", p.allBelow)
-	v.bits(name, p.bs)
-}
-func (v verifHasher) smap(name string, m map[string]string) {
-	v.str(name)
-	if m == nil {
-		v.str("nil")
-		return
-	}
-	keys := make([]string, 0, len(m))
-	for k := range m {
-		keys = append(keys, k)
-	}
-	sort.Strings(keys)
-	for _, k := range keys {
-		v.str(k)
-		v.str(m[k])
-	}
-}
-func (v verifHasher) opts(o *parserOptions) {
-	v.boolean(o.reportValidationErrors)
-	v.boolean(o.failOnValidationError)
-	v.boolean(o.laxHostParsing)
-	v.boolean(o.collapseConsecutiveSlashes)
-	v.boolean(o.acceptInvalidCodepoints)
-	v.boolean(o.preParseHostFunc != nil)
-	v.boolean(o.postParseHostFunc != nil)
-	v.boolean(o.percentEncodeSinglePercentSign)
-	v.boolean(o.allowSettingPathForNonBaseUrl)
-	v.boolean(o.skipWindowsDriveLetterNormalization)
-	v.smap("specialSchemes", o.specialSchemes)
-	v.boolean(o.skipTrailingSlashNormalization)
-	if o.encodingOverride != nil {
-		v.str(o.encodingOverride.String())
-	} else {
-		v.str("utf-8")
-	}
-	v.set("path", o.pathPercentEncodeSet)
-	v.set("squery", o.specialQueryPercentEncodeSet)
-	v.set("query", o.queryPercentEncodeSet)
-	v.set("sfragment", o.specialFragmentPercentEncodeSet)
-	v.set("fragment", o.fragmentPercentEncodeSet)
-	v.boolean(o.skipEqualsForEmptySearchParamsValue)
+	v.deep(reflect.ValueOf(x), 0)
 }
 
 // VerifTableFingerprint hashes every package-level table and the default parser's options.
 func VerifTableFingerprint() uint64 {
 	v := verifHasher{fnv.New64a()}
-	v.bits("ASCIITabOrNewline", ASCIITabOrNewline)
-	v.bits("ASCIIAlpha", ASCIIAlpha)
-	v.bits("ASCIIDigit", ASCIIDigit)
-	v.bits("ASCIIHexDigit", ASCIIHexDigit)
-	v.bits("ASCIIAlphanumeric", ASCIIAlphanumeric)
-	v.bits("C0control", C0control)
-	v.bits("C0controlOrSpace", C0controlOrSpace)
-	v.bits("ForbiddenHostCodePoint", ForbiddenHostCodePoint)
-	v.bits("ForbiddenDomainCodePoint", ForbiddenDomainCodePoint)
-	v.bits("someURLCodePoints", someURLCodePoints)
-	v.set("C0", C0PercentEncodeSet)
-	v.set("C0OrSpace", C0OrSpacePercentEncodeSet)
-	v.set("Fragment", FragmentPercentEncodeSet)
-	v.set("Query", QueryPercentEncodeSet)
-	v.set("SpecialQuery", SpecialQueryPercentEncodeSet)
-	v.set("Path", PathPercentEncodeSet)
-	v.set("UserInfo", UserInfoPercentEncodeSet)
-	v.set("Host", HostPercentEncodeSet)
-	v.smap("defaultSpecialSchemes", defaultSpecialSchemes)
+	v.named("ASCIITabOrNewline", ASCIITabOrNewline)
+	v.named("ASCIIAlpha", ASCIIAlpha)
+	v.named("ASCIIDigit", ASCIIDigit)
+	v.named("ASCIIHexDigit", ASCIIHexDigit)
+	v.named("ASCIIAlphanumeric", ASCIIAlphanumeric)
+	v.named("C0control", C0control)
+	v.named("C0controlOrSpace", C0controlOrSpace)
+	v.named("ForbiddenHostCodePoint", ForbiddenHostCodePoint)
+	v.named("ForbiddenDomainCodePoint", ForbiddenDomainCodePoint)
+	v.named("someURLCodePoints", someURLCodePoints)
+	v.named("C0", C0PercentEncodeSet)
+	v.named("C0OrSpace", C0OrSpacePercentEncodeSet)
+	v.named("Fragment", FragmentPercentEncodeSet)
+	v.named("Query", QueryPercentEncodeSet)
+	v.named("SpecialQuery", SpecialQueryPercentEncodeSet)
+	v.named("Path", PathPercentEncodeSet)
+	v.named("UserInfo", UserInfoPercentEncodeSet)
+	v.named("Host", HostPercentEncodeSet)
+	v.named("defaultSpecialSchemes", defaultSpecialSchemes)
 	if dp, ok := defaultParser.(*parser); ok {
-		v.opts(&dp.opts)
+		v.named("defaultParser", dp)
 	}
 	return v.h.Sum64()
 }
 
-// VerifParserFingerprint hashes the options of a Parser created by NewParser
-// (ok = false for any other implementation of the interface).
+// VerifParserFingerprint hashes a Parser created by NewParser, all of its fields and
+// everything they point to (ok = false for any other implementation of the interface).
 func VerifParserFingerprint(p Parser) (fp uint64, ok bool) {
 	pp, ok := p.(*parser)
 	if !ok {
 		return 0, false
 	}
 	v := verifHasher{fnv.New64a()}
-	v.opts(&pp.opts)
+	v.named("parser", pp)
 	return v.h.Sum64(), true
 }
 
 // VerifSetFingerprint hashes one percent-encode set.
 func VerifSetFingerprint(p *PercentEncodeSet) uint64 {
 	v := verifHasher{fnv.New64a()}
-	v.set("set", p)
+	v.named("set", p)
+	return v.h.Sum64()
+}
+
+// VerifDeepFingerprint hashes any value structurally (used by other packages' hooks).
+func VerifDeepFingerprint(x interface{}) uint64 {
+	v := verifHasher{fnv.New64a()}
+	v.named("value", x)
 	return v.h.Sum64()
 }
